@@ -93,6 +93,7 @@ type Path struct {
 	fs        map[string]*memFile
 	markers   map[int]*Term
 	hashPre   map[string]string // hex hash -> preimage (symstr.go)
+	blsObjs   map[int]blsLin
 	thShares  map[string]thShare // share public key hex -> threshold group (cryptox.go)
 	sched      []int
 	schedReplay []int
